@@ -6,7 +6,7 @@
                  "qb_rb_space_free.function_pointer_call.1/verif_q_len_fn", "qb_rb_space_free.function_pointer_call.2/verif_q_len_fn"],
  "stubs": ["memcpy (witness form)"],
  "drops": ["qb_util_log/qb_util_perror diagnostics compiled out (stubs/nolog.h)"],
- "expect_classes": ["assertion"], "timeout": 300,
+ "expect_classes": ["assertion"], "timeout": 600,
  "variants": [{"vname": "read", "defines": ["-DV_READ"]}, {"vname": "alloc", "defines": ["-DV_ALLOC"]}]}
 */
 /* C01, correctness of each party under interference by the other (rely/guarantee, SC assumed).
